@@ -215,6 +215,9 @@ func (r *c38Runner) mutate(class string, a, b, c uint64) string {
 	hs := int(a % 256)
 	sm := r.slotMans[hs]
 	ck := sm.Chunks[int(b)%len(sm.Chunks)]
+	if class == "chunk-bitsweep" {
+		return r.bitSweep(hs, c)
+	}
 	type saved struct {
 		key  string
 		body []byte // nil = did not exist
@@ -358,6 +361,53 @@ func (r *c38Runner) mutate(class string, a, b, c uint64) string {
 		}
 	}
 	return fmt.Sprintf("verify=%s", res)
+}
+
+// bitSweep: EVERY single-bit flip of the first 32 and the last 16 bytes of every stored chunk object of one
+// Slot, plus 64 random bit flips elsewhere, judged by the function verification uses (DecodeChunk with the
+// manifest's descriptor); the flips of the zstd frame-header bytes 4 and 5 additionally go through the
+// repository (Put + LoadStoredSlotReference with chunk verification).  Every change must be detected.
+func (r *c38Runner) bitSweep(hs int, seed uint64) string {
+	ctx := context.Background()
+	root := "backups/" + c38ID + "/"
+	sm := r.slotMans[hs]
+	rnd := NewRand(seed)
+	flips, undetected, storeFlips, storeUndetected := 0, 0, 0, 0
+	first := "-"
+	ref := r.manifest.Slots[hs]
+	for ci, ck := range sm.Chunks {
+		orig := r.get(root + ck.Key)
+		try := func(byteIdx, bit int) {
+			b := append([]byte(nil), orig...)
+			b[byteIdx] ^= 1 << uint(bit)
+			flips++
+			if backup.DecodeChunk(io.Discard, bytes.NewReader(b), ck.Descriptor) == nil {
+				undetected++
+				if first == "-" {
+					first = fmt.Sprintf("%d:%d:%d", ci, byteIdx, bit)
+				}
+			}
+			if byteIdx == 4 || byteIdx == 5 {
+				storeFlips++
+				r.put(root+ck.Key, b)
+				if _, _, err := backup.LoadStoredSlotReference(ctx, r.store, c38ID, ref, true); err == nil {
+					storeUndetected++
+				}
+				r.put(root+ck.Key, orig)
+			}
+		}
+		for i := range orig {
+			if i < 32 || i >= len(orig)-16 {
+				for bit := 0; bit < 8; bit++ {
+					try(i, bit)
+				}
+			}
+		}
+		for k := 0; k < 64 && len(orig) > 48; k++ {
+			try(32+rnd.Intn(len(orig)-48), rnd.Intn(8))
+		}
+	}
+	return fmt.Sprintf("flips=%d undetected=%d storeflips=%d storeundetected=%d first=%s", flips, undetected, storeFlips, storeUndetected, first)
 }
 
 func (r *c38Runner) Step(op string) string {
